@@ -24,6 +24,8 @@ SPEC = {'id': 'C12',
               ('Snowflake.Props.C12', 'Snowflake.Messages.C12.client_resp_injective'),
               ('Snowflake.Props.C12', 'Snowflake.Messages.C12.poll_resp_match_injective'),
               ('Snowflake.Props.C12', 'Snowflake.Messages.C12.client_req_injective'),
+              ('Snowflake.Props.C12', 'Snowflake.Messages.C12.answer_resp_injective'),
+              ('Snowflake.Props.C12', 'Snowflake.Messages.C12.proxy_poll_injective'),
               ('Snowflake.Props.C12', 'Snowflake.Messages.C12.answer_req_accepts_only_valid'),
               ('Snowflake.Props.C12', 'Snowflake.Messages.C12.rejects_answer_req'),
               ('Snowflake.Props.C12', 'Snowflake.Messages.C12.rejects_unmarshal_answer_req'),
